@@ -11,14 +11,16 @@ for d in seeded/C*/; do
   fi
   rc=$(echo "$out" | grep -o "exit=[0-9]*" | head -1 | cut -d= -f2)
   viol=$(echo "$out" | grep "^VIOLATION" | sed 's/.*replay=\/verif\/out\/replays\///; s/\.json.*//' | head -3 | tr '\n' ' ')
-  echo -e "$S\t$P\texit=$rc\t$viol" >> seeded/RESULTS.tsv
-  python3 - "$S" "$rc" "$viol" <<'P'
+  repro=no; echo "$out" | grep "^VIOLATION" | grep -qv "no-failing-input-found" && repro=yes
+  echo -e "$S\t$P\texit=$rc\treproduced=$repro\t$viol" >> seeded/RESULTS.tsv
+  python3 - "$S" "$rc" "$viol" "$repro" <<'P'
 import json,sys
-s,rc,viol=sys.argv[1],sys.argv[2],sys.argv[3]
+s,rc,viol,repro=sys.argv[1],sys.argv[2],sys.argv[3],sys.argv[4]
 f='/verif/seeded/%s/meta.json'%s
 m=json.load(open(f))
 m['detected_by']=([{"check":"./check %s --tier quick"%s[:3],"obligations_or_cases":viol.split()}] if rc=='1' else [])
 m['detected']=(rc=='1')
+m['reproduced_on_real_code']=(repro=='yes')
 json.dump(m,open(f,'w'),indent=1)
 P
 done
